@@ -202,7 +202,7 @@ def from_isodatetime(date_time: str | None):
                     secs = float(value)
                     kwargs[key] = int(secs)
                     secs -= int(secs)
-                    kwargs['microsecond'] = int(1000000.0 * secs)
+                    kwargs['microsecond'] = min(999999, round(1000000.0 * secs))
                 else:
                     kwargs[key] = int(value, 10)
             else:
